@@ -404,25 +404,40 @@ theorem limiter_states_per_remedy (ps : List DPol) (hacc : accepted ps = true) :
   apply hne
   rw [← n₁, ← n₂, ← e₁, ← e₂, hk]
 
-/-- A request whose chain holds ONE throttling remedy next to any number of remedies that cannot answer a request
-    themselves — retry, authentication (o_auth / api_key / basic), account orchestration, caching (it stores provider
-    responses only: fix F09g) — in ANY order is answered exactly as that remedy's `OnRequest` answers: same verdict,
-    same rejection status and body, the same counter step.  (A fixed-response remedy in the chain answers in its
-    place when the request asks for it — by design, hence the hypothesis.) -/
+/-- A request whose chain holds ONE throttling remedy next to any number of remedies that neither answer a request
+    nor touch its headers as the throttling remedy sees them — retry, o_auth / basic authentication, caching (it
+    stores provider responses only: fix F09g) — in ANY order is answered exactly as that remedy's `OnRequest`
+    answers on the client's request: same verdict, same rejection status and body, the same state step.  (A
+    fixed-response remedy answers in its place when the request asks for it, and an account-orchestration / api-key
+    remedy listed before it decides the group header it sees — hence the hypothesis.) -/
 theorem dispatch_single_throttle (cap : CapFn) (s : DState) (ps : List DPol) (url method : String)
     (hs : List (String × String)) (t : Nat) (r : Remedy)
     (hplain : (chain ps url method).all plain = true)
     (h : (chain ps url method).filterMap remedyOf = [r]) :
-    dispatchStep cap s ps url method hs t
-      = ({ s with lim := (pluginStep cap s.lim r hs t).1 }, toDAns (pluginStep cap s.lim r hs t).2) := by
-  simp only [dispatchStep, runChain_single_throttle cap url method hs t _ s r hplain h]
+    (dispatchStep cap s ps url method hs t).1 = { s with lim := (pluginStep cap s.lim r hs t).1 } ∧
+    (dispatchStep cap s ps url method hs t).2.1 = toDAns (pluginStep cap s.lim r hs t).2 := by
+  simp only [dispatchStep, runChain_single_throttle cap url method hs t _ s r hplain h, and_self]
 
-/-- A request whose chain holds no throttling remedy (and no fixed-response remedy) passes and touches no counter. -/
+/-- A request whose chain holds no throttling remedy (and no fixed-response / header-setting remedy) passes and
+    touches no counter. -/
 theorem dispatch_no_throttle (cap : CapFn) (s : DState) (ps : List DPol) (url method : String)
     (hs : List (String × String)) (t : Nat) (hplain : (chain ps url method).all plain = true)
     (h : (chain ps url method).filterMap remedyOf = []) :
-    dispatchStep cap s ps url method hs t = (s, .pass) := by
-  simp only [dispatchStep, runChain_no_throttle cap url method hs t _ s .pass hplain h]
+    (dispatchStep cap s ps url method hs t).1 = s ∧ (dispatchStep cap s ps url method hs t).2.1 = .pass := by
+  simp only [dispatchStep, runChain_no_throttle cap url method hs t _ s .pass hplain h, and_self]
+
+/-- A header an earlier remedy of the chain puts on the request is the one the throttling remedy groups by — not
+    the value the client sent: an api-key remedy setting the group header, then the throttling remedy. -/
+theorem dispatch_setter_then_throttle (cap : CapFn) (s : DState) (hn hv : String) (p q : DPol) (r : Remedy)
+    (url method : String) (hs : List (String × String)) (t : Nat)
+    (hp : p.kind = .apikey hn hv) (hq : remedyOf q = some r) :
+    runChain cap url method t [p, q] s hs .pass
+      = ({ s with lim := (pluginStep cap s.lim r (hs ++ [(hn, hv)]) t).1 },
+         toDAns (pluginStep cap s.lim r (hs ++ [(hn, hv)]) t).2) := by
+  have h1 : stepPol cap url method hs t p s = (s, .pass, some (hn, hv), [(hn, hv)]) := by
+    unfold stepPol; rw [hp]
+  simp only [runChain, h1, stepPol_throttle cap url method _ t q s r hq]
+  simp
 
 /-! ### Non-vacuity -/
 
@@ -437,7 +452,7 @@ example :
     let s2 := dispatchStep capExact s1.1 ps u "GET" [] 1000500000001
     let s3 := dispatchStep capExact s2.1 ps u "GET" [] 1010500000000
     let s4 := dispatchStep capExact s3.1 ps u "GET" [] 1020500000000
-    [s1.2, s2.2, s3.2, s4.2] = [.pass, .early 429 tooMany, .pass, .pass] := by
+    [s1.2.1, s2.2.1, s3.2.1, s4.2.1] = [.pass, .early 429 tooMany, .pass, .pass] := by
   decide +kernel
 
 /-- dispatcher level: the document of seed C09-s11 (one name on two endpoints) is refused; with distinct names
@@ -448,7 +463,7 @@ example :
     let th (a w : Nat) : DKind := .throttle ⟨"", a, w, 429, false, 0, none, true⟩
     let dup : List DPol := [⟨some ("api.example.com/orders", "GET"), "throttle", true, th 2 3600⟩,
       ⟨some ("api.example.com/invoices", "GET"), "throttle", true, th 5 7200⟩]
-    let ok : List DPol := [⟨some ("api.example.com/orders", "GET"), "oauth", true, .other⟩,
+    let ok : List DPol := [⟨some ("api.example.com/orders", "GET"), "oauth", true, .oauth⟩,
       ⟨some ("api.example.com/orders", "GET"), "t-orders", true, th 2 3600⟩,
       ⟨some ("api.example.com/invoices", "GET"), "t-invoices", true, th 5 7200⟩, ⟨none, "retry", true, .retry 2 429 429⟩]
     let s1 := dispatchStep capExact {} ok "api.example.com/orders" "GET" [] 1000500000000
@@ -456,7 +471,7 @@ example :
     let s3 := dispatchStep capExact s2.1 ok "api.example.com/invoices" "GET" [] 1000500000002
     let s4 := dispatchStep capExact s3.1 ok "api.example.com/orders" "GET" [] 1000500000003
     accepted dup = false ∧ accepted ok = true ∧
-    [s1.2, s2.2, s3.2, s4.2] = [.pass, .pass, .pass, .early 429 tooMany] := by
+    [s1.2.1, s2.2.1, s3.2.1, s4.2.1] = [.pass, .pass, .pass, .early 429 tooMany] := by
   decide +kernel
 
 end LunarVerif.C09
